@@ -412,7 +412,7 @@ func cmdCheck(args []string) int {
 		if *only != "" && hs.Name != *only {
 			continue
 		}
-		if (*tier == "quick" && hs.ThoroughOnly) || (*tier == "thorough" && hs.QuickOnly) || hs.NoSelfval {
+		if (*tier == "quick" && hs.ThoroughOnly) || (*tier == "thorough" && hs.QuickOnly) || hs.NoSelfval || !have[hs.Name] {
 			continue
 		}
 		b := hs.Quick
